@@ -288,6 +288,13 @@ def run_der_class(spec, ctx, L, H, cname):
                 for kind, mut in M.node_mutations(e, rng, ctx.tier, open_strings=False):
                     if "@root" in kind or "@depth1" in kind:
                         H.offer(d, mut, kind)
+                if "[explicit=" in d.name:
+                    # bytes after the inner element, inside the EXPLICIT wrapper: "never accept bytes trailing a DER structure"
+                    for kind, mut in M.explicit_wrapper_mutations(e):
+                        if kind.endswith("@root"):
+                            cls = "trailing-inside-explicit-tag"
+                            H.offer(d, mut, cls, expect=("refuse", cls))
+                            ctx.count("explicit_wrapper_mutations")
         ctx.op("dec_der", cname, "short")
         for s in M.short_inputs(ctx.tier, rng):
             if ctx.tier == "quick" and len(s) == 2 and s[0] not in (tag, tag ^ 0x20, 0xA0, 0x82, 0x30, 0x00, 0xFF) and s[1] not in (0x80, 0x00):
